@@ -123,6 +123,12 @@ func cmdCheck(args []string) int {
 			byName[displayName(fn)] = fn
 		}
 	}
+	// function literals that carry a contract through the package-level variable they are stored in
+	for _, fn := range w.FnOf {
+		if fn != nil && fn.Parent() != nil {
+			byName[displayName(fn)] = fn
+		}
+	}
 	var results []*FuncResult
 	var missing []string
 	seenFn := map[string]bool{}
@@ -337,8 +343,10 @@ func cmdCheck(args []string) int {
 		os.MkdirAll(replayDir, 0o755)
 		rp := filepath.Join(replayDir, sanitizeFile(o.Name)+".json")
 		outcome := "no-model"
-		if replays < maxReplays {
-			replays++
+		if sc := findScenario(o.Name); sc != nil || replays < maxReplays {
+			if sc == nil {
+				replays++
+			}
 			outcome = replayObligation(p, w, o, rp, outDir, seed)
 		} else {
 			writeJSON(rp, map[string]interface{}{"obligation": o.Name, "kind": o.Kind, "clause": o.Src, "where": o.Pos, "solver_result": o.Result,
